@@ -65,17 +65,18 @@ type KV struct {
 
 // Op is one builder call.
 type Op struct {
-	M   string `json:"m"`             // method name
-	K   *B     `json:"k,omitempty"`   // key (absent for array elements and keyless methods)
-	V   *TV    `json:"v,omitempty"`   // value
-	V2  *TV    `json:"v2,omitempty"`  // second value (TimeDiff)
-	F   []Op   `json:"f,omitempty"`   // nested field ops (Dict, Object, EmbedObject, Func)
-	E   []Op   `json:"e,omitempty"`   // array elements (Array)
-	KV  []KV   `json:"kv,omitempty"`  // Fields entries
-	Map bool   `json:"map,omitempty"` // Fields given as map (else slice)
-	Nil bool   `json:"nil,omitempty"` // nil object / nil array marshaler / odd trailing key in Fields slice
-	Cus bool   `json:"cus,omitempty"` // Array: pass a custom LogArrayMarshaler instead of *zerolog.Array
-	N   int    `json:"n,omitempty"`   // skip count etc.
+	M    string `json:"m"`              // method name
+	K    *B     `json:"k,omitempty"`    // key (absent for array elements and keyless methods)
+	V    *TV    `json:"v,omitempty"`    // value
+	V2   *TV    `json:"v2,omitempty"`   // second value (TimeDiff)
+	F    []Op   `json:"f,omitempty"`    // nested field ops (Dict, Object, EmbedObject, Func)
+	E    []Op   `json:"e,omitempty"`    // array elements (Array)
+	KV   []KV   `json:"kv,omitempty"`   // Fields entries
+	Map  bool   `json:"map,omitempty"`  // Fields given as map (else slice)
+	Nil  bool   `json:"nil,omitempty"`  // nil object / nil array marshaler / odd trailing key in Fields slice
+	TNil bool   `json:"tnil,omitempty"` // Object / EmbedObject: a typed-nil pointer whose MarshalZerologObject is nil-safe and adds the fields F
+	Cus  bool   `json:"cus,omitempty"`  // Array: pass a custom LogArrayMarshaler instead of *zerolog.Array
+	N    int    `json:"n,omitempty"`    // skip count etc.
 }
 
 // ---- helper types handed to zerolog
@@ -107,6 +108,14 @@ func (o ObjM) MarshalZerologObject(e *zerolog.Event) { ApplyEvent(e, o.F) }
 type ptrObjM struct{ F []Op }
 
 func (o *ptrObjM) MarshalZerologObject(e *zerolog.Event) { ApplyEvent(e, o.F) }
+
+// nilSafeObjM: a marshaler with a pointer receiver that works on a NIL pointer (it reads nothing from the receiver): a typed nil
+// in an interface is not a nil interface, and the library has to call it like any other marshaler
+type nilSafeObjM struct{ unused int }
+
+var nilSafeOps []Op
+
+func (o *nilSafeObjM) MarshalZerologObject(e *zerolog.Event) { ApplyEvent(e, nilSafeOps) }
 
 type arrM struct{ E []Op }
 
@@ -312,6 +321,10 @@ func buildArg(t reflect.Type, op *Op, tv *TV) reflect.Value {
 		var o zerolog.LogObjectMarshaler = ObjM{op.F}
 		if op.Cus {
 			o = &ptrObjM{op.F}
+		}
+		if op.TNil {
+			nilSafeOps = op.F
+			o = (*nilSafeObjM)(nil)
 		}
 		return reflect.ValueOf(&o).Elem()
 	case t == tArr:
